@@ -76,7 +76,14 @@ func (a AV) key() string {
 	case 'b':
 		return fmt.Sprintf("b%d", a.B)
 	case 'm':
-		return fmt.Sprintf("m%d,%v", a.MK, a.Pend)
+		tv := ""
+		if a.Toks.Has("TRUE") {
+			tv += "T"
+		}
+		if a.Toks.Has("FALSE") {
+			tv += "F"
+		}
+		return fmt.Sprintf("m%d,%v%s", a.MK, a.Pend, tv)
 	}
 	return "?"
 }
@@ -91,7 +98,11 @@ type EvalResult struct {
 }
 
 type KindEval struct {
-	c        *Ctx
+	// InvokeOracle, when set, gives the abstract result of an interface call
+	// (used to feed operand kinds into interpreter nodes that evaluate their
+	// children through IEvaluable).
+	InvokeOracle func(x *ssa.Call) (AV, bool)
+	c            *Ctx
 	rs       *RetSum
 	memo     map[string]*EvalResult
 	active   map[string]bool
@@ -357,6 +368,14 @@ func (ke *KindEval) typeAssert(x *ssa.TypeAssert, p *evalPath, res *EvalResult) 
 	}
 	have, known := ke.intfType[base.MK]
 	pendingNow := base.Pend && !p.pend[base.Src]
+	if known && have == want && want == "bool" && len(base.Toks) > 0 {
+		// the payload of a boolean whose truth value is known
+		if base.Toks.Has("TRUE") && !base.Toks.Has("FALSE") {
+			p.env[x] = avBool(true)
+		} else if base.Toks.Has("FALSE") && !base.Toks.Has("TRUE") {
+			p.env[x] = avBool(false)
+		}
+	}
 	if !known || have != want || pendingNow {
 		res.Abort = true
 		if res.AbortAt == "" {
@@ -378,6 +397,12 @@ func kindName(k int, pend bool) string {
 // call handles a call instruction; returns (continuePath, ok).
 func (ke *KindEval) call(x *ssa.Call, p *evalPath, res *EvalResult, depth int) (bool, bool) {
 	com := &x.Call
+	if com.IsInvoke() && ke.InvokeOracle != nil {
+		if av, ok := ke.InvokeOracle(x); ok {
+			p.env[x] = av
+			return true, true
+		}
+	}
 	name := CalleeName(com)
 	switch {
 	case name == "os.Exit":
